@@ -704,6 +704,97 @@ pub fn vec_op<'b, P: Pair>(ctx: &mut Ctx, bump: &'b Bump, v: &mut VSlot<'b, P::A
             ctx.both(&format!("slice index {:?}", range), || vals(&s[range]), || vals(&t[range]));
             ctx.both("iter().rev()", || s.iter().rev().map(|x| x.val()).collect::<Vec<_>>(), || t.iter().rev().map(|x| x.val()).collect::<Vec<_>>());
             ctx.both("debug fmt", || format!("{:?}", s), || format!("{:?}", t));
+            {
+                // iterator views on plain copies of the contents: Debug of IntoIter / Drain, IntoIter::as_mut_slice, the size hints
+                // of Drain and DrainFilter, comparisons with arrays and mutable slices
+                let plain: Vec<u32> = t.iter().map(|x| x.val()).collect();
+                let mk = || {
+                    let _g = enter_arena(1);
+                    BVec::from_iter_in(plain.iter().cloned(), bump)
+                };
+                let take = (a as usize >> 5) % 3;
+                let range = range_arg(ctx, c, a, b, len);
+                let (ps, pt) = (mk(), plain.clone());
+                ctx.both(
+                    "IntoIter: Debug, as_slice, as_mut_slice, size_hint",
+                    move || {
+                        let mut it = ps.into_iter();
+                        for _ in 0..take {
+                            it.next();
+                        }
+                        let d1 = format!("{:?}", it);
+                        it.as_mut_slice().reverse();
+                        if let Some(x) = it.as_mut_slice().first_mut() {
+                            *x += 100;
+                        }
+                        let view = it.as_slice().to_vec();
+                        (d1, view, it.size_hint(), it.collect::<Vec<u32>>())
+                    },
+                    move || {
+                        let mut it = pt.into_iter();
+                        for _ in 0..take {
+                            it.next();
+                        }
+                        let d1 = format!("{:?}", it);
+                        it.as_mut_slice().reverse();
+                        if let Some(x) = it.as_mut_slice().first_mut() {
+                            *x += 100;
+                        }
+                        let view = it.as_slice().to_vec();
+                        (d1, view, it.size_hint(), it.collect::<Vec<u32>>())
+                    },
+                );
+                let (mut ps, mut pt) = (mk(), plain.clone());
+                ctx.both(
+                    &format!("Drain({:?}): Debug and size_hint, before and after taking {take}", range),
+                    || {
+                        let mut d = ps.drain(range);
+                        let h0 = d.size_hint();
+                        for _ in 0..take {
+                            d.next();
+                        }
+                        (format!("{:?}", d), h0, d.size_hint(), d.len())
+                    },
+                    || {
+                        let mut d = pt.drain(range);
+                        let h0 = d.size_hint();
+                        for _ in 0..take {
+                            d.next();
+                        }
+                        (format!("{:?}", d), h0, d.size_hint(), d.len())
+                    },
+                );
+                {
+                    // DrainFilter has no std twin: its size hint must bracket what it will really yield
+                    let mut ps = mk();
+                    let n = ps.len();
+                    let (lo, hi, yielded) = {
+                        let _g = enter_arena(1);
+                        let mut df = ps.drain_filter(|x| *x % 2 == 0);
+                        for _ in 0..take {
+                            df.next();
+                        }
+                        let (lo, hi) = df.size_hint();
+                        (lo, hi, df.count())
+                    };
+                    if lo > yielded || hi.map_or(false, |h| h < yielded) || hi.map_or(false, |h| h > n) {
+                        ctx.v("C13", format!("DrainFilter::size_hint() = ({lo}, {hi:?}) but {yielded} more items were yielded (vector of {n})"));
+                    }
+                }
+                let (ps, pt) = (mk(), plain.clone());
+                let arr3: [u32; 3] = [plain.first().cloned().unwrap_or(0), plain.get(1).cloned().unwrap_or(1), if c & 1 == 0 { plain.get(2).cloned().unwrap_or(2) } else { 77 }];
+                let mut ms1 = plain.clone();
+                let mut ms2 = plain.clone();
+                if c & 2 != 0 {
+                    ms1.push(5);
+                    ms2.push(5);
+                }
+                ctx.both(
+                    "== / != against arrays, array references and mutable slices",
+                    || (ps == arr3, ps == &arr3, ps != arr3, ps == &mut ms1[..], ps != &mut ms1[..], ps == [0u32; 0], ps == &plain[..]),
+                    || (pt == arr3, pt == &arr3, pt != arr3, pt == &mut ms2[..], pt != &mut ms2[..], pt == [0u32; 0], pt == &plain[..]),
+                );
+            }
             // trait forwarding: comparisons with slices, hashing by value, reference iteration, AsRef/Borrow
             let probe_s: Vec<P::A> = (0..len.min(3)).map(|j| P::A::make((c as u32 + j as u32) % 12)).collect();
             let probe_t: Vec<P::B> = (0..len.min(3)).map(|j| P::B::make((c as u32 + j as u32) % 12)).collect();
